@@ -4,7 +4,7 @@
 # simulator against it, runs the quick check of each property (no evidence written, replays kept out
 # of /verif) and prints the exit codes. The scratch dirs persist between calls (incremental builds);
 # remove them with: tools/scratch_check.sh --clean
-WT=/tmp/wt-scratch; SIMC=/tmp/simcopy2; WORK=/tmp/scratchverif
+T=${SCRATCH_TAG:-}; WT=/tmp/wt-scratch$T; SIMC=/tmp/simcopy2$T; WORK=/tmp/scratchverif$T
 if [ "$1" = "--clean" ]; then git -C /repo worktree remove --force $WT 2>/dev/null; rm -rf $SIMC $WORK; exit 0; fi
 patch="$1"; shift
 export CARGO_NET_OFFLINE=true
